@@ -72,7 +72,7 @@ def _analyses():
             "accumulating into the current entry), alignment of parents/argnums/rules in the wrapper and in all dispatch branches (A13.align), node constructor slots (A2.slot).",
         ),
         "C04": (
-            [a5_factor.agree, a5_linear.closures_linear, a1.lin],
+            [a5_factor.agree, a5_linear.closures_linear, a1.lin, a3.vjp, a3.jvp],
             "Adjointness: equal normal forms of the VJP and JVP factors of every elementwise primitive with both rules (a diagonal operator is self-adjoint, so equality of the "
             "factors IS adjointness for all inputs); linearity in g of every rule closure (two-point domain over linear_in facts); 'same' entries only on linear pairs.",
         ),
